@@ -15,7 +15,8 @@ use crate::report::Report;
 use crate::sched;
 use crate::util::{Fnv, HRng};
 
-const KINDS: [&str; 11] = [
+const KINDS: [&str; 12] = [
+    "logp_never_finite",
     "init_first_attempts_invalid",
     "logp_unrecoverable",
     "logp_recoverable",
@@ -86,11 +87,18 @@ fn gen_fcase(seed: u64, idx: u64) -> FCase {
     let mut all: Vec<i64> = (0..num_chains as i64).collect();
     rng.shuffle(&mut all);
     let chains = all[..n_faulty as usize].to_vec();
-    let place = *rng.choose(&["init", "first", "warmup", "boundary", "last"]);
+    let place = *rng.choose(&["init", "first", "warmup", "boundary", "last", "research"]);
     // interleaved user commands
     let mut script = vec![];
-    match rng.below(4) {
+    match rng.below(5) {
         0 => {}
+        4 => {
+            // a front end that polls progress while the run (and the failure) happens, and only then waits
+            for _ in 0..(2 + rng.below(6)) {
+                script.push(Cmd::SleepUs(200 + rng.below(4000)));
+                script.push(Cmd::Progress);
+            }
+        }
         1 => {
             for _ in 0..(1 + rng.below(8)) {
                 script.push(rng.choose(&[Cmd::Progress, Cmd::Flush, Cmd::Inspect, Cmd::Pause, Cmd::Resume]).clone());
@@ -155,10 +163,14 @@ fn run_fcase(report: &mut Report, c: &FCase, stallcheck: bool) -> bool {
     let needs_evals = c.kind.starts_with("logp");
     let mut evals: HashMap<i64, u64> = HashMap::new();
     let mut first_draw_eval: HashMap<i64, u64> = HashMap::new();
+    let mut revisits: HashMap<i64, Vec<u64>> = HashMap::new();
     if needs_evals {
-        match par::run_watched(&spec, Duration::from_secs(60)) {
+        let mut probe = spec.clone();
+        probe.keep_eval_records = true;
+        match par::run_watched(&probe, Duration::from_secs(60)) {
             Watched::Done(l) if matches!(l.fin, Final::Trace(_)) => {
                 evals = l.density_evals.clone();
+                revisits = l.revisit_evals.clone();
                 for (ch, recs) in &l.records {
                     // evaluations before the first draw = total - sum of steps (NUTS) is not exact; use a fraction instead
                     let steps: u64 = recs.iter().map(|r| r.num_steps).sum();
@@ -184,6 +196,12 @@ fn run_fcase(report: &mut Report, c: &FCase, stallcheck: bool) -> bool {
             "first" => f0,
             "warmup" => f0 + (c.place_frac * span as f64 * c.num_tune as f64 / total.max(1) as f64) as u64,
             "boundary" => f0 + (span as f64 * c.num_tune as f64 / total.max(1) as f64) as u64,
+            // an evaluation inside the re-run of the step size search (it starts by re-evaluating the current point);
+            // without one in this run: somewhere in warmup
+            "research" => match revisits.get(&ch).and_then(|v| v.iter().find(|k| **k >= f0.max(1))) {
+                Some(k) => k + (c.place_frac * 3.0) as u64,
+                None => f0 + (c.place_frac * span as f64 * c.num_tune as f64 / total.max(1) as f64) as u64,
+            },
             _ => n - 1,
         }
         .min(n - 1)
@@ -227,6 +245,14 @@ fn run_fcase(report: &mut Report, c: &FCase, stallcheck: bool) -> bool {
         }
         "storage_init" => {
             spec.storage_faults = StorageFaults { init_fail: c.chains.iter().map(|ch| *ch as u64).collect(), ..Default::default() };
+        }
+        "logp_never_finite" => {
+            // a density without any point of finite log density for these chains (finite gradients): every starting
+            // point is invalid, the run must fail with "all initialisation points failed"
+            let f = if c.place_frac < 0.5 { Fault::NanLogp } else { Fault::NegInfLogp };
+            for ch in &c.chains {
+                spec.plans.insert(*ch, (0..20_000u64).map(|k| (k, f)).collect());
+            }
         }
         "model_math_chain" => spec.model_faults = ModelFaults { math_fail_chains: c.chains.clone(), ..Default::default() },
         "model_math_controller" => spec.model_faults = ModelFaults { math_fail_chains: vec![-1], ..Default::default() },
